@@ -49,7 +49,7 @@ def evaluate(spec):
         return {"sig": "reference container: " + f0, "detail": (o0.run.exc or "")[-300:], "nontrivial": False}
     o1 = oracle.run_e2e(b, wd, pkts=pkts, container=cont, keys=cont.get("keys"), name="var")
     f1 = oracle.base_failure(o1)
-    dims = (cont["fmt"] != "pcapng") + (cont.get("endian", "<") != "<") + (cont.get("tsresol", 6) != 6) + bool(cont.get("tsoffset")) + bool(cont.get("extra") or cont.get("extra_pre")) + (cont.get("ifaces", 1) > 1) + bool(cont.get("keys")) + \
+    dims = (cont["fmt"] != "pcapng") + (cont.get("endian", "<") != "<") + (cont.get("tsresol", 6) != 6) + bool(cont.get("tsoffset")) + bool(cont.get("extra") or cont.get("extra_pre")) + (cont.get("ifaces", 1) > 1 or bool(cont.get("idle_ifaces"))) + bool(cont.get("keys")) + \
         bool(cont.get("nano"))
     r = cont.get("tsresol", 6)
     labels = ["fmt:" + cont["fmt"] + ("-ns" if cont.get("nano") else ""), "endian:" + ("be" if cont.get("endian", "<") == ">" else "le"),
@@ -58,6 +58,7 @@ def evaluate(spec):
               "big-block" if any(x[2] > 60000 for x in (cont.get("extra") or [])) else "small-blocks", "snaplen:%d" % cont.get("snaplen", 0),
               "opt-order:" + ("offset,resol" if cont.get("offset_first") else "resol,offset"), "blocks-before-idb:%d" % len(cont.get("extra_pre") or []),
               "interfaces:%d%s" % (cont.get("ifaces", 1), "-late" if cont.get("late_idb") and cont.get("ifaces", 1) > 1 else ""),
+              "idle-interfaces:%d" % len(cont.get("idle_ifaces") or []),
               "keys:" + ("file" if not cont.get("keys") else "dsb-only" if not cont["keys"].get("file") else "file+dsb")]
     nontrivial = dims >= 2 and bool(o0.pkts)
     if f1:
@@ -172,6 +173,10 @@ def container(draw):
     # a capture on several interfaces (same time parameters): packets are spread over them; later interfaces may be described late
     c["ifaces"] = draw(st.sampled_from([1, 1, 1, 2, 3]))
     c["late_idb"] = draw(st.booleans())
+    if c["ifaces"] == 1:
+        # ... or further interfaces without packets, each with time parameters of its own
+        c["idle_ifaces"] = [[draw(st.integers(0, 40)), draw(st.sampled_from([6, 9, 3, 0, 0x8A])), draw(st.sampled_from([0, 0, 3600]))]
+                            for _ in range(draw(st.sampled_from([0, 0, 1, 2])))]
     # ... and some of them before the interface description block (they do not refer to an interface)
     c["extra_pre"] = [[draw(st.sampled_from([4, 0x00000BAD, 0x40000BAD, 0x7777])), 4 * draw(st.one_of(st.integers(0, 12), st.sampled_from([400, 17000])))]
                       for _ in range(draw(st.sampled_from([0, 0, 0, 1, 2])))]
@@ -207,6 +212,7 @@ RULE = ("stage same-times-two-containers: the same sub-microsecond packet times 
         "-l; packet times are exact rationals, multiples of the variant's unit; oracle: same exported packets, same timestamps (exactly when the "
         "times are integer microseconds - then also a byte-identical output file - else within 1 us).  Non-trivial: variant differs from the "
         "reference in >= 2 container dimensions and the export is non-empty")
-ASSUMPTIONS = ["present-day capture times (about 1.7e9 s); 1-3 interfaces, all with the same if_tsresol / if_tsoffset (the property speaks of one resolution per capture)", "nanosecond-magic legacy pcap is counted as a legacy pcap variant"]
+ASSUMPTIONS = ["present-day capture times (about 1.7e9 s); 1-3 interfaces carrying packets, all with the same if_tsresol / if_tsoffset (the property speaks of one resolution per capture); further "
+               "interfaces without packets may have other parameters", "nanosecond-magic legacy pcap is counted as a legacy pcap variant"]
 
 CHECK = Check(PID, "exploration", RULE, ASSUMPTIONS, stages)
